@@ -25,6 +25,9 @@
 #include "jw_jbd2_format.h"
 
 #define JW_NDRAW 8
+#ifndef JW_MAXLEN
+#define JW_MAXLEN (1u << 20)	/* cap on the length of the block / revoke list handed to the writer */
+#endif
 struct in_jw {
 	unsigned int blocksize;
 	int version;				/* j_format_version */
